@@ -154,7 +154,7 @@ func c13Run(c *Ctx) {
 	style := gen.DrawXStyle(c.L("style"))
 	style.EqSpace = c.L("style:x").Chance(1, 4)
 	if y := c.L("style:y"); y.Chance(1, 4) {
-		style.AttrPad = []int{40, 130, 260, 600, 1300}[y.Intn(5)]
+		style.AttrPad = []int{40, 130, 260, 600, 1300, 1530}[y.Intn(6)]
 	}
 	c.Descf("style: %+v", style)
 	pkt := rec.Serialise(g, style)
@@ -193,6 +193,23 @@ func c13Run(c *Ctx) {
 	c.Descf("properties: %s", strings.Join(names, " "))
 	if c.Describe && len(pkt) <= 6000 {
 		c.Descf("packet=%q", pkt)
+	} else if c.Describe {
+		// white-space runs written as {n}
+		var sb strings.Builder
+		for i := 0; i < len(pkt) && sb.Len() < 6000; {
+			j := i
+			for j < len(pkt) && (pkt[j] == ' ' || pkt[j] == '\n' || pkt[j] == '\t' || pkt[j] == '\r') {
+				j++
+			}
+			if j-i > 8 {
+				fmt.Fprintf(&sb, "{%d}", j-i)
+				i = j
+				continue
+			}
+			sb.WriteByte(pkt[i])
+			i++
+		}
+		c.Descf("packet(white space folded)=%q", sb.String())
 	}
 	harness.LogDefault()
 	// empty pools at the start of the run: what a run observes is a function of (seed, run) and
